@@ -259,11 +259,12 @@ def corr_rejection(chk, r, n):
     for i in range(n):
         kind = KINDS[i % 4]
         mode = [1, 2, 3][(i // 4) % 3]
-        grid = rand_grid(r, xmin=float(r.choice([0.05, 0.1, 0.2])))
+        grid = rand_grid(r, xmin=float(r.choice([1e-3, 0.01, 0.05, 0.1, 0.2])))
         inside = r.random() < 0.3
-        # x on / just above the lowest node: xi < x falls below the grid unless M = 0
-        x = float(grid[0] * r.choice([1.0, 1.0 + 1e-9, 1.02]))
-        Q2 = float(r.choice([1.0, 4.0]))
+        # x on / just above the lowest node: xi < x falls below the grid unless M = 0; small x and
+        # large Q2 make xi miss the grid by a relative 1e-8..1e-5 only
+        x = float(grid[0] * r.choice([1.0, 1.0, 1.0 + 1e-9, 1.02]))
+        Q2 = float(r.choice([1.0, 4.0, 20.0, 100.0]))
         MP = 0.0 if inside else float(r.choice([0.938, 2.0]))
         _, xi = nachtmann(x, MP * MP / Q2)
         t = cards.theory(PTO=0, TMC=mode, MP=MP)
